@@ -1467,3 +1467,25 @@ mut("memfs_rename_keeps_source", ["C02", "C16"], "FS-3|<fs::fs_mem::InMemoryFile
     note="in-memory rename copies instead of moving: the temp file of the CURRENT switch stays behind")
 mut("block_type_decoder_swaps_middle_and_last", ["C12", "C02"], "ENUM-1|<logs::BlockType as std::convert::TryFrom<u8>>::try_from", patch="block_type_decoder_swaps_middle_and_last.diff",
     note="records of three or more fragments are reassembled wrongly (two-fragment records are unaffected)")
+
+# ---- eleventh set: 20 refactorings of the anchors of the round-9 blind-spot rules (5 alarmed on first contact, all repaired in the checker)
+benign_patch("refactor_s11_01", "benign/set11_01_block_seek_match_to_if_else.diff", note='BlockIter::seek: match on Ordering -> if cmp == Ordering::Less / else (BSRCH-1 learned bool tests of an Ordering)')
+benign_patch("refactor_s11_02", "benign/set11_02_block_seek_if_let_current.diff", note='02 block seek if let current')
+benign_patch("refactor_s11_03", "benign/set11_03_block_next_tail_expression.diff", note='03 block next tail expression')
+benign_patch("refactor_s11_04", "benign/set11_04_block_prev_nested_else.diff", note='04 block prev nested else')
+benign_patch("refactor_s11_05", "benign/set11_05_block_seek_to_last_named_temp.diff", note='05 block seek to last named temp')
+benign_patch("refactor_s11_06", "benign/set11_06_block_current_get_map.diff", note='BlockIter::current: entries.get(index).map(..) (BLK-1 accepts the checked get)')
+benign_patch("refactor_s11_07", "benign/set11_07_find_file_swap_operands.diff", note='07 find file swap operands')
+benign_patch("refactor_s11_08", "benign/set11_08_find_smallest_match_option.diff", note='08 find smallest match option')
+benign_patch("refactor_s11_09", "benign/set11_09_find_largest_enumerate_rev.diff", note='find_largest: iter().enumerate().rev() with the plain index (MRG-1 maps the index back only when rev precedes enumerate)')
+benign_patch("refactor_s11_10", "benign/set11_10_remove_node_and_then_upgrade.diff", note='remove_node: prev.as_ref().and_then(Weak::upgrade) (LST-1 recognises the predecessor by its provenance)')
+benign_patch("refactor_s11_11", "benign/set11_11_push_node_if_let.diff", note='11 push node if let')
+benign_patch("refactor_s11_12", "benign/set11_12_finalize_extract_score_helper.diff", note='12 finalize extract score helper')
+benign_patch("refactor_s11_13", "benign/set11_13_requires_size_compaction_swap.diff", note='13 requires size compaction swap')
+benign_patch("refactor_s11_14", "benign/set11_14_make_room_named_trigger_temps.diff", note='14 make room named trigger temps')
+benign_patch("refactor_s11_15", "benign/set11_15_make_room_swap_operands_debug_log.diff", note='15 make room swap operands debug log')
+benign_patch("refactor_s11_16", "benign/set11_16_destroy_database_reuse_lock_path.diff", note='16 destroy database reuse lock path')
+benign_patch("refactor_s11_17", "benign/set11_17_new_iterator_cleanup_named_guard.diff", note='17 new iterator cleanup named guard')
+benign_patch("refactor_s11_18", "benign/set11_18_read_physical_record_extract_eof_error.diff", note='18 read physical record extract eof error')
+benign_patch("refactor_s11_19", "benign/set11_19_mem_rename_if_let.diff", note='19 mem rename if let')
+benign_patch("refactor_s11_20", "benign/set11_20_mem_remove_file_is_none_early_return.diff", note='mem remove_file: named Option + is_none() early return (FS-3 uses the generic Option tests)')
